@@ -98,6 +98,9 @@ class C25:
     level = "exploration"
     counts = {"quick": 160, "thorough": 6000}
     nproc = 8  # children may use up to the address-space cap each
+    # CPU time is the one noisy observable (already confirmed by a second run inside the case): a
+    # violation of this class that does not show again on replay is measurement noise, not a harness error
+    noisy_classes = {"cpu-bound-exceeded"}
     wall_caps = {"quick": 170, "thorough": 1500}
     rule = ("case = one generated non-terminating or resource-hungry program (33 families: infinite loops with and without "
             "output, self / mutual / closure / method recursion, value nesting by one level per iteration followed by "
@@ -328,8 +331,13 @@ class C25:
         fams = sorted(set(p[0].split("-depth-")[0] for p in case["progs"]))
         if case["mode"] == "playground-run":
             return f"C25:{cls}:{fams[0]}"
-        # (a file whose source nests too deeply dies while it is parsed, whatever else it contains)
-        nest = [f for f in fams if f.startswith("deep-source")] + [f for f in fams if f.startswith(("nest-", "deep-closure"))]
+        # The family named first is the one the class is attributed to: a file whose source nests too
+        # deeply dies while it is parsed, whatever else it contains; excessive memory or CPU time comes
+        # from the value-nesting bodies.
+        ds = [f for f in fams if f.startswith("deep-source")]
+        ne = [f for f in fams if f.startswith("nest-")]
+        dc = [f for f in fams if f.startswith("deep-closure")]
+        nest = (ds + ne + dc) if cls == "crashed" else (ne + dc + ds)
         return f"C25:{cls}:tests:" + ("+".join(nest) if nest else "no-nesting")
 
     def replay(self, ctx, rp):
